@@ -764,6 +764,37 @@ theorem immutable_owner_today (op : OpK) (hop : op ∈ ownerOps) (s : Shape) :
   rw [List.all_eq_true] at h
   exact (and_true_split (h op hop)).1
 
+/-- what C19 says about constructing / deserializing a whole immutable class from plain caller data -/
+def ImmutableClassHoldsFor (tbl : List AliasRow) (op : OpK) (fs : List (String × Shape)) : Prop :=
+  ∀ (fuel : Nat) (h : Heap) (a : Nat) (h' : Heap) (r : Option Item), PlainItems h (h.cells a).items →
+    transfer (modeOf tbl op) fuel (.keyed .root fs) h (.ref a) = (h', r) →
+    (∀ x, x < h.next → h'.cells x = h.cells x) ∧
+    ∀ inst, r = some inst →
+      (∀ acts, AdmissibleAll h' (roots inst) acts →
+        ∀ x, x < h.next → (runScript h' (roots inst) acts).1.cells x = h.cells x) ∧
+      (ClosedBelow h.next h → ∀ K, (∀ x, x ∈ K → x < h.next) → ∀ acts, AdmissibleAll h' K acts →
+        ∀ n, observeN n (runScript h' K acts).1 inst = observeN n h' inst)
+
+/-- **a whole ImmutableStructure**: for ANY table whose owner row copies and whose top-level site rebuilds — whatever
+    the rows of the fields say — and for EVERY list of declared fields (each behind the owner's copy), constructing the
+    instance from plain data writes nothing of the caller's, and afterwards neither a script from the instance changes
+    the caller's objects nor a script from the caller's objects any observation of the instance -/
+theorem immutable_class_holds (tbl : List AliasRow) (op : OpK) (fs : List (String × Shape)) (ho : allOwned fs = true)
+    (hm : (modeOf tbl op .owner .none).ownerCopies = true) (hroot : modeOf tbl op .root .none = .rebuild) :
+    ImmutableClassHoldsFor tbl op fs := by
+  intro fuel h a h' r pl e
+  have fr := transfer_frame (modeOf tbl op) fuel (.keyed .root fs) h (.ref a) h' r e
+  refine ⟨fr.2, ?_⟩
+  intro inst hr
+  subst hr
+  exact holds_of_fresh_result fr (immutable_class_fresh (modeOf tbl op) fuel fs ho hm hroot h a pl h' inst e)
+
+/-- today's code: the constructor and the Deserializer of every ImmutableStructure class -/
+theorem immutable_class_today (fs : List (String × Shape)) (ho : allOwned fs = true) :
+    ImmutableClassHoldsFor Generated.aliasing .construct fs ∧ ImmutableClassHoldsFor Generated.aliasing .deserialize fs :=
+  ⟨immutable_class_holds _ _ fs ho (by decide +kernel) (by decide +kernel),
+   immutable_class_holds _ _ fs ho (by decide +kernel) (by decide +kernel)⟩
+
 /-- the choice function of a multi-field wrapper picks the FIRST option the value fits -/
 theorem firstFit_spec (h : Heap) (i : Item) : ∀ (opts : List Shape),
     (∀ j s, j < firstFitIdx h i opts → opts[j]? = some s → fits s h i = false) ∧
